@@ -1,3 +1,4 @@
+import XV.Lemmas.Repost
 import XV.Lemmas.CrashWalk
 /-!
 Dying again during the restart leaves nothing new: the trace of the walk that resumes an interrupted walk consists of
@@ -11,7 +12,7 @@ theorem walkRepost_of_pool_nil (e : Env) (x : St) (lh : Int) (dest : Nat) (prune
   unfold walkRepost
   simp only
   split
-  · rw [hp]; rfl
+  · rw [repostList_of_pool_nil e x hp]; rfl
   · rfl
 
 theorem mem_walkMid_of_undo (e : Env) (s : St) (lh : Int) (dest : Nat) (prune : Bool) (A B : List Nat) (x : St)
